@@ -1300,19 +1300,27 @@ func checkWorkersOnAdjustedPartitions(p *Prog, r *Roles, res *Result, sp *ssa.Pa
 		}
 	}
 	if raw != nil {
-		// the realigning function: the one the raw list is handed to
+		// the realigning function: a function of the package that takes the list and returns a list
+		isAdjustCall := func(call *ssa.Call, v ssa.Value) bool {
+			sc := call.Common().StaticCallee()
+			if sc == nil || sc.Pkg != sp || sc.Signature.Results().Len() != 1 || !types.Identical(sc.Signature.Results().At(0).Type(), raw.Type()) {
+				return false
+			}
+			for _, a := range call.Common().Args {
+				if a == v {
+					return true
+				}
+			}
+			return false
+		}
 		isAdjustArg := func(v ssa.Value) bool {
 			if v.Referrers() == nil {
 				return false
 			}
 			for _, ref := range *v.Referrers() {
-				if call, ok := ref.(*ssa.Call); ok && call.Common().StaticCallee() != nil && call.Common().StaticCallee().Pkg == sp {
-					for _, a := range call.Common().Args {
-						if a == v {
-							adjust = append(adjust, call)
-							return true
-						}
-					}
+				if call, ok := ref.(*ssa.Call); ok && isAdjustCall(call, v) {
+					adjust = append(adjust, call)
+					return true
 				}
 			}
 			return false
@@ -1326,6 +1334,32 @@ func checkWorkersOnAdjustedPartitions(p *Prog, r *Roles, res *Result, sp *ssa.Pa
 				}
 			}
 		}
+		// direct uses of the engine's list (a local that is not captured): the realigning call, the error test, and
+		// nothing else
+		var direct func(v ssa.Value, d int)
+		direct = func(v ssa.Value, d int) {
+			if d > 3 || v.Referrers() == nil {
+				return
+			}
+			for _, ref := range *v.Referrers() {
+				switch x := ref.(type) {
+				case *ssa.Call:
+					if isAdjustCall(x, v) {
+						adjust = append(adjust, x)
+						continue
+					}
+					if bi, ok := x.Common().Value.(*ssa.Builtin); ok && bi.Name() == "len" {
+						continue // logging / sizing before the realignment is harmless
+					}
+					leak = x
+				case *ssa.Phi:
+					direct(x, d+1)
+				case *ssa.Range, *ssa.IndexAddr, *ssa.MakeClosure, *ssa.Go, *ssa.Slice:
+					leak = ref
+				}
+			}
+		}
+		direct(raw, 0)
 		for _, b := range scanFn.Blocks {
 			for _, ins := range b.Instrs {
 				switch x := ins.(type) {
@@ -1346,10 +1380,6 @@ func checkWorkersOnAdjustedPartitions(p *Prog, r *Roles, res *Result, sp *ssa.Pa
 								}
 							}
 						}
-					}
-				case *ssa.Range:
-					if types.Identical(x.X.Type(), raw.Type()) {
-						checkUse(x, x.X)
 					}
 				}
 			}
